@@ -48,7 +48,7 @@ def jobs(tier):
                        spec_headers=SPEC, callee_contracts={NEWD: C_NEWD, CONJ: C_CONJ}, replace=[NEWD, CONJ], exceptions=True,
                        caps={'map': 4, 'vec_vec_I': 4, 'vec_I': 4, 'vec_lit': 2}, abstract_fields=ABS, harness=HARNESS % ('smt_idl_theory_new_%s__lin__lin' % rel), roots=['smt_lin_ctor'], timeout=3000, mem_gb=24, mem_est=4,
                        force_types=['std::vector<std::vector<long>>', 'std::vector<smt::lit>'],
-                       bounded='expressions with <= 2 terms each over 4 time points, |coefficients| < 2^%d, |x| <= 4' % W))
+                       bounded='expressions with <= 2 terms each over %d time points, |coefficients| < 2^%d, |x| <= 4' % (d['XT_NTP'], W)))
     # ---- expression queries.  bounds(l): the interval must be the one derived from the variable-level distances, must enclose the
     # value of l under every valuation consistent with the matrix (here: the ghost one), and every integer difference form is served
     preq = ['__CPROVER_is_fresh(l, sizeof(*l))', '__exc == 0 && sp_x_ok()', 'lin_shape(*l) && sp_lin_keys_ok(*l)', 'in_range_lin(*l) && lin_nonzero(*l)', 'wf_lin(*l)',
@@ -79,7 +79,12 @@ def jobs(tier):
     # distance(from, to): the interval of to - from.  As for the relations, `to` is fixed to the zero expression (from - to is exact by C15)
     # and `from` is symbolic, so the interval must be the one of -from
     HD = 'void xt_harness(void)\n{\n  xt_init_globals();\n' + hq + '\n  struct smt_idl_theory th; struct smt_lin *from;\n  struct smt_lin to = smt_lin_ctor();\n  smt_idl_theory_distance__lin__lin(&th, from, &to);\n}\n'
-    pred = [r.replace('*l)', '*from)').replace('(l,', '(from,') for r in preq] + ['to->vars.n == 0 && to->known_term.num == 0 && to->known_term.den == 1']
+    # quick: 8-bit integers and finite distances for the two wrappers of bounds (the inf() sentinel is exercised by idl.bounds itself); thorough: as idl.bounds
+    QD = dict(d, XT_DQ=20) if tier == 'quick' else dict(d, I_BITS=16, XT_DQ=64, XT_QINF=16382)
+    QE = dict(d, XT_DQ=10) if tier == 'quick' else dict(d, I_BITS=16, XT_DQ=64, XT_QINF=16382)
+    fin = (lambda r: r.replace('sp_D_within_or_inf(', 'sp_D_within(')) if tier == 'quick' else (lambda r: r)
+    QB = 'distances finite with |D| <= 20 resp. 10 (8-bit integers)' if tier == 'quick' else 'distances finite with |D| <= 64 or the inf() sentinel (16-bit integers)'
+    pred = [fin(r.replace('*l)', '*from)').replace('(l,', '(from,')) for r in preq] + ['to->vars.n == 0 && to->known_term.num == 0 && to->known_term.den == 1']
     BD = 'sp_bounds_of(self->_dists, sp_lin_neg(*from))'
     cd = Contract(requires=pred,
                   ensures=[('only_invalid_argument', '__exc == 0 || __exc == EXC_invalid_argument'),
@@ -87,7 +92,7 @@ def jobs(tier):
                            ('agrees_with_the_variable_level_distances', '__exc != 0 || !%s.ok || ((WIDE_t)%s.first == %s.lo && (WIDE_t)%s.second == %s.hi)' % (BD, R, BD, R, BD)),
                            ('encloses_every_consistent_valuation', '__exc != 0 || (sp_val_sign(sp_lin_neg(*from), (WIDE_t)%s.first) >= 0 && sp_val_sign(sp_lin_neg(*from), (WIDE_t)%s.second) <= 0)' % (R, R))],
                   assigns='__exc')
-    out.append(Job('idl.distance', 'smt_idl_theory_distance__lin__lin', tus=TUS, contract=cd, defines=dict(d, I_BITS=16, XT_DQ=64, XT_QINF=16382), unwind=6, model_unwind=8, spec_headers=SPEC, exceptions=True,
+    out.append(Job('idl.distance', 'smt_idl_theory_distance__lin__lin', tus=TUS, contract=cd, defines=QD, unwind=6, model_unwind=8, spec_headers=SPEC, exceptions=True,
                    caps={'map': 4, 'vec_vec_I': 4, 'vec_I': 4, 'vec_lit': 2}, abstract_fields=dict(ABS, **{'smt::lit': ['x']}), harness=HD, roots=['smt_lin_ctor'], timeout=3000, mem_gb=24, mem_est=4,
                    force_types=['std::vector<std::vector<long>>'],
                    replay={'driver': 'dl', 'stanza': '''  const int n = XT_NTP; sat_core sat; idl_theory *th = build_idl_q(sat, n); lin from = mk_lin(100); lin to;
@@ -100,7 +105,7 @@ def jobs(tier):
   } catch (const std::invalid_argument &e) { if (want.ok) ok = false; observed = "distance(" + show(from) + ", 0) throws invalid_argument"; }
   required = "the interval of to - from derived from the variable-level distances, enclosing every consistent valuation";
 '''},
-                   bounded='from: <= 2 terms over %d time points, to = 0; |coefficients| < 2^%d, |x| <= 4, distances finite with |D| <= 64 or the inf() sentinel (16-bit integers)' % (d['XT_NTP'], W)))
+                   bounded='from: <= 2 terms over %d time points, to = 0; |coefficients| < 2^%d, |x| <= 4, %s' % (d['XT_NTP'], W, QB)))
     # equates(l0, l1): "may be equal" - true exactly when 0 lies in the interval of l0 - l1, and never false when a consistent valuation
     # makes the two expressions equal
     HE = 'void xt_harness(void)\n{\n  xt_init_globals();\n' + hq + '\n  struct smt_idl_theory th; struct smt_lin *l0; struct smt_lin *l1;\n  smt_idl_theory_equates__lin__lin(&th, l0, l1);\n}\n'
@@ -109,13 +114,13 @@ def jobs(tier):
             'in_range_lin(*l0) && lin_nonzero(*l0) && in_range_lin(*l1) && lin_nonzero(*l1)', 'wf_lin(*l0) && wf_lin(*l1)',
             'sp_D_shape_q(self->_dists) && sp_D_within_or_inf(self->_dists, XT_DQ) && sp_x_consistent(self->_dists)', 'sp_lin_rec(100, *l0) && sp_lin_rec(130, *l1) && sp_q_rec(self->_dists)']
     BE = 'sp_bounds_of_diff(self->_dists, *l0, *l1)'
-    ce = Contract(requires=pree,
+    ce = Contract(requires=[fin(r) for r in pree],
                   ensures=[('only_invalid_argument', '__exc == 0 || __exc == EXC_invalid_argument'),
                            ('serves_every_integer_difference_form', '!%s.ok || __exc == 0' % BE),
                            ('agrees_with_the_variable_level_distances', '__exc != 0 || !%s.ok || %s == (%s.lo <= 0 && %s.hi >= 0)' % (BE, R, BE, BE)),
                            ('never_denies_an_equality_some_consistent_valuation_has', '__exc != 0 || sp_diff_sign(*l0, *l1) != 0 || %s' % R)],
                   assigns='__exc')
-    out.append(Job('idl.equates', 'smt_idl_theory_equates__lin__lin', tus=TUS, contract=ce, defines=dict(d, I_BITS=16, XT_DQ=64, XT_QINF=16382), unwind=6, model_unwind=8, spec_headers=SPEC, exceptions=True,
+    out.append(Job('idl.equates', 'smt_idl_theory_equates__lin__lin', tus=TUS, contract=ce, defines=QE, unwind=6, model_unwind=8, spec_headers=SPEC, exceptions=True,
                    caps={'map': 4, 'vec_vec_I': 4, 'vec_I': 4, 'vec_lit': 2}, abstract_fields=dict(ABS, **{'smt::lit': ['x']}), harness=HE, timeout=3000, mem_gb=24, mem_est=4,
                    force_types=['std::vector<std::vector<long>>'],
                    replay={'driver': 'dl', 'stanza': '''  const int n = XT_NTP; sat_core sat; idl_theory *th = build_idl_q(sat, n); lin l0 = mk_lin(100), l1 = mk_lin(130);
@@ -128,7 +133,7 @@ def jobs(tier):
   } catch (const std::invalid_argument &e) { if (want.ok) ok = false; observed = "equates(" + show(l0) + ", " + show(l1) + ") throws invalid_argument"; }
   required = "true exactly when 0 lies in the interval of l0 - l1 derived from the variable-level distances";
 '''},
-                   bounded='l0 <= 2 terms, l1 <= 1 term over %d time points; |coefficients| < 2^%d, |x| <= 4, distances finite with |D| <= 64 or the inf() sentinel (16-bit integers)' % (d['XT_NTP'], W)))
+                   bounded='l0 <= 2 terms, l1 <= 1 term over %d time points; |coefficients| < 2^%d, |x| <= 4, %s' % (d['XT_NTP'], W, QB)))
     # ---- new_distance(from, to, dist), the body behind the contract the relations assume: the TRUE / FALSE shortcuts are taken only
     # when the current distances decide the constraint for every consistent valuation; otherwise a fresh variable is created, bound
     # to the theory, and registered with exactly this constraint (the meaning of that literal is then enforced by propagate: C10)
